@@ -77,6 +77,27 @@ CHECKS.update({
         design="8 C11"),
 })
 
+CHECKS.update({
+    "C07": dict(
+        text="Contract proof per handler per path for the three SQL visitors: every piece of node data spliced into the text sits inside one "
+             "quoted literal with quotes doubled (per-character homomorphism), inside one quoted identifier, or is a number/keyword token "
+             "(regular inclusion of the field's token language, decided exactly); the constant skeleton tokenises; and (2-safety) the path "
+             "taken does not depend on string contents or field spellings. Children are spliced only as expression holes, so the modular rule "
+             "extends it to every filter.",
+        note="SQL lexical grammar of the reader is assumed; table alias without double quote; regions recorded as C09 findings are outside the claim.",
+        technique="contracts + symbolic templates read by an assumed SQL grammar (pyvc + reader) ; homomorphism lemma; automata inclusion",
+        design="8 C07"),
+    "C09": dict(
+        text="Contract proof per handler per path, 3 dialects: the symbolic template each handler returns is read with the dialect's grammar: "
+             "well-formed, tree mirrors the node (operator, operand order), every child translation binds tightly enough for its position "
+             "(side conditions discharged by z3 against the children's promised strengths), promised strength of the result, data holes, alias "
+             "only in identifiers, each call argument exactly once. Unbounded in depth by the modular rule.",
+        note="Reader soundness (operator-precedence compositionality) and the dialect operator tables are assumed; typed-grammar preconditions on "
+             "argument kinds; recorded findings are excluded regions.",
+        technique="contracts + symbolic templates parsed by a Pratt reader with holes; side conditions by z3",
+        design="8 C09"),
+})
+
 NOT_APPLICABLE = {
     "C02": "the rows a Django QuerySet returns are decided by Django's SQL compiler and SQLite, not by any function in /repo; no contract on repo code can express it (DESIGN section 9)",
     "C03": "row semantics are decided by SQLAlchemy's compiler (operator rendering, contains escaping, boolean rendering) and SQLite (DESIGN section 9)",
